@@ -14,24 +14,24 @@ CLAIMS = {
     "C02": ("durability/ordering protocol + error discipline (MUSTPASS/ORDER/GUARDED/ORIGIN over MIR CFGs); re-evaluates the manifest reader/replay/rollover rules C13.1/5/6",
             "Decides the protocol shape that crash safety needs on every path: ack only after the covering fdatasync (the coalesced token is the maximum offset under every ordering; everything handed to the fsync queue is a write-queue token or 0), SST "
             "sync before use, manifest write<flush<sync<rollover, link<manifest<install, log retired last and only on the Ok edge of the ingest, no storage error "
-            "dropped or unwrapped, no truncating open of data files.  A batch is reduced to one entry per key before it is stamped, logged and inserted (what is durable can be replayed), and every explicit panic on the write path is an internal invariant listed with its reason.  A manifest handle whose write failed appends nothing behind the torn edit.  SstBuilder::seal writes nothing after its sync_all; every fallible step of a manifest edit is recorded in poison.  Does not enumerate crash states.", "§4 C02"),
+            "dropped or unwrapped, no truncating open of data files.  A batch is reduced to one entry per key before it is stamped, logged and inserted (what is durable can be replayed), and every explicit panic on the write path is an internal invariant listed with its reason.  A manifest handle whose write failed appends nothing behind the torn edit.  SstBuilder::seal writes nothing after its sync_all; every fallible step of a manifest edit is recorded in poison.  Only the flush thread and recover_one retire a log; a batch is reduced to the last write per key; a log builder whose write failed acknowledges nothing more.  Does not enumerate crash states.", "§4 C02"),
     "C09": ("checksum-gate dominance, sanity-gate chain, bounded-allocation slice, R-ERR + explicit-panic audit + implicit-bounds audit (array-bounds dataflow on byte buffers) over REACH(read entry points)",
             "Decides that every consumer of file bytes is dominated by the equal edge of its CRC comparison, that the "
             "final-block sanity gates dominate the first block load, that data-sized allocations are bounded, and that no "
             "explicit panic / dropped error is reachable from the file-reading entry points, and that every index / slice of a "
             "byte buffer on those paths is in range by a dominating comparison on the same buffer (exceptions listed with "
-            "reasons).  A message a constructor decodes straight from file bytes and keeps must be covered by a checksum comparison (the SST final block is not: known finding F19).  A count decoded from a block is subtracted from a length only under a check; the manifest reader drops an unfinished edit only at the end of its input.  Does not decide detection of every flip nor integer-overflow panics.", "§4 C09, §9.1"),
+            "reasons).  A message a constructor decodes straight from file bytes and keeps must be covered by a checksum comparison (the SST final block is not: known finding F19).  A count decoded from a block is subtracted from a length only under a check; the manifest reader drops an unfinished edit only at the end of its input.  The log reader reads the padding it skips and requires zeros; a FIRST frame without its SECOND is an error.  Does not decide detection of every flip nor integer-overflow panics.", "§4 C09, §9.1"),
     "C12": ("ORDER/GUARDED/ORIGIN over the log writer and reader CFGs; writer/reader discriminant table agreement; R-ERR + explicit-panic + implicit-bounds audit; re-evaluates C02.1 (ack after covering fdatasync, offset covers the batch) and C18.1 (queue hand-off)",
             "Decides: append acknowledges only after the covering fdatasync; frame CRC gate and header size bounds dominate "
             "the hand-out; the discriminants written equal those accepted and FIRST is completed only by SECOND; split "
             "records are written header/payload/pad/header/payload after the size checks; failures poison the builder; no "
-            "error is lost or unwrapped in the reader; fsync() hands the sync queue a value in the write queue's unit.  An error leaves no bytes of the failed batch in the reader's buffer.  The reader's frame-size bound is at least the largest batch the writer admits (constants compared by value).  Does not decide boundary arithmetic, the prefix property under "
+            "error is lost or unwrapped in the reader; fsync() hands the sync queue a value in the write queue's unit.  An error leaves no bytes of the failed batch in the reader's buffer.  The reader's frame-size bound is at least the largest batch the writer admits (constants compared by value).  A FIRST frame without its SECOND is an error; a builder whose write failed takes no more batches and no piece of a frame is refused once the first is out.  Does not decide boundary arithmetic, the prefix property under "
             "truncation, or exactly-once under interleavings.", "§4 C12"),
     "C13": ("ORDER/GUARDED/ORIGIN over Manifest::{open,_apply,rollover} and ManifestIterator::next; who-may-call on manifest files; HELD for the lock table; implicit-bounds audit of mani",
             "Decides: one append then sync_data before apply returns; rollover links a backup, writes the roll-up to a "
             "temporary and renames it; the reader delivers an edit only at its separator and drops a trailing partial edit; "
             "lines are CRC-gated; the directory lock is taken before reading and owned by the handle; only _apply/rollover "
-            "write manifest files.  Writer and reader agree on the alphabet of a line (shortest line admitted; non-ASCII text, a trailing CR and the action characters as info keys refused at write time); a refused in-process lock attempt opens no descriptor.  A handle whose write failed accepts no further edit or rollover; a rollover that died after linking its backup is resumed, not repeated (the fragments keep chaining).  Every fallible step of an edit is recorded; None is answered only at the end of the input; nothing unlinks or renames the lock file.  Does not decide tolerance of every truncation/crash point or the string alphabet.", "§4 C13"),
+            "write manifest files.  Writer and reader agree on the alphabet of a line (shortest line admitted; non-ASCII text, a trailing CR and the action characters as info keys refused at write time); a refused in-process lock attempt opens no descriptor.  A handle whose write failed accepts no further edit or rollover; a rollover that died after linking its backup is resumed, not repeated (the fragments keep chaining).  Every fallible step of an edit is recorded; None is answered only at the end of the input; nothing unlinks or renames the lock file.  A roll-up carries every string and every info key.  Does not decide tolerance of every truncation/crash point or the string alphabet.", "§4 C13"),
     "C08": ("who-may-call enumeration of every remove/rename/hard_link site with ORIGIN path classification; GUARDED/ORDER on unref, verifier and orphan scan (incl. the numeric order of manifest fragments and who may run the scan); ESCAPE of the VersionRef; MUSTPASS re-read of the base version after a wait",
             "Decides the deletion capability: nothing under sst/, mani/ or a log is ever unlinked by the store, an sst/ file is "
             "moved to trash/ only under dec()==true and strong_count==1, versions are referenced before publication, the "
@@ -53,13 +53,13 @@ CLAIMS = {
             "collector resets its per-key state on every key change; any/all consult every child without short-circuit and the version "
             "counter always retains a key's first untombstoned version; the multi-builder seals every builder it lets go, records every file it "
             "opens and forwards each entry unchanged to the current builder.  "
-            "Outputs are cut only between two different keys (or at a full table).  A policy combinator defines and forwards every method of the Determiner trait to every child.  The version a compaction installs derives from a snapshot taken under the lock that installs it (C08.6).  Does not decide multiset equality of contents or GC policy semantics.", "§4 C05"),
+            "Outputs are cut only between two different keys (or at a full table).  A policy combinator defines and forwards every method of the Determiner trait to every child.  The version a compaction installs derives from a snapshot taken under the lock that installs it (C08.6).  Entries reach an output cut through get_builder(key) only.  Does not decide multiset equality of contents or GC policy semantics.", "§4 C05"),
     "C06": ("HELD lock-guard dataflow (must/may), ORDER, GUARDED, WRITES and ORIGIN over KeyValueStore::{write,load,range_scan,_memtable_thread}",
             "Decides the critical-section and completion-order skeleton linearizability needs: one critical section assigns queue "
             "position, sequence number, memtable and log; Ok only after append < insert < head-of-list wait < unlink < notify; "
             "readers capture (mem, imm, version, timestamp) in one critical section; rollover swaps and drains in one critical "
             "section, creates the new log before its first state write (a failed rollover leaves the store as it was) and clears imm after ingest; a failed write leaves the wait list and notifies under the store mutex; the readers' timestamp field is advanced only after the batch is inserted and "
-            "at the head of the list.  Every memtable point-read entry the store uses is handed the snapshot timestamp.  Does not decide linearizability over all interleavings.", "§4 C06"),
+            "at the head of the list.  Every memtable point-read entry the store uses is handed the snapshot timestamp.  Within a batch the last write of a key is the one that becomes visible (C02.8).  Does not decide linearizability over all interleavings.", "§4 C06"),
     "C18": ("ORDER/MUSTPASS/loop-body MUSTPASS/HELD/WRITES over do_work, WaitList and the LRU; wait-kind classification (filtering vs. plain condvar waits) with HELD at predicate writers; lock-order graph of sync42",
             "Decides hand-off and accounting pairing: every do_work exit unlinks then notifies, returns its own waiter's Output, "
             "the leader publishes every taken waiter's output before leaving and clears doing_work; wait-list head/tail change "
@@ -72,7 +72,7 @@ CLAIMS = {
             "waits re-check their predicate inside one critical section, notifications cannot race a predicate check, the set of "
             "(lock held, condvar waited) pairs equals a triaged table, every awaited state change is announced, failed compactions "
             "release their claim, a compaction chosen as mandatory is emitted on every path under no score comparison (only the optional "
-            "candidate is score-gated).  The ingest stall predicate compares only quantities the mandatory-compaction predicate also compares and reads nothing but the version; option limits that end the compaction search exempt level 0 (the file-count limits do not: known finding F17).  Does not decide that a relieving compaction is always found by the search, nor fairness.", "§4 C20"),
+            "candidate is score-gated).  The ingest stall predicate compares only quantities the mandatory-compaction predicate also compares and reads nothing but the version; option limits that end the compaction search exempt level 0 (the file-count limits do not: known finding F17).  A chosen compaction ends applied or in an error: no success return leaves its claim behind.  Does not decide that a relieving compaction is always found by the search, nor fairness.", "§4 C20"),
     "C01": ("ORDER/GUARDED/ORIGIN over KeyValueStore::load, Version::load, open/recover; re-evaluates the sibling rules a point read depends on (C06.1/3/4/5, C02.4/5, C10.2, C05.1/5, C13.5, C08.4/6); worklist-relaxation MUSTPASS in recover",
             "Decides the lookup-precedence and freshness skeleton: mem before imm before tree with early exit on hit or tombstone; "
             "L0 newest-first before deeper levels; batches stamped with the fresh sequence number before use; publish after "
@@ -128,7 +128,7 @@ CLAIMS = {
             "inverse, four-bit and total; the compact format's tag ranges are ordered, 9 wide, disjoint and contiguous; the "
             "descending byte map is an involution that keeps the continuation bit and reverses data-bit order (its prefix-order "
             "clause fails: known finding F14); the sign-offset mapping of i32 / i64 is strictly increasing from signed to unsigned order on every "
-            "value and decode is its inverse (tabulated, not sampled); the compact format's width table is exact.  tuple_key2's byte-string framing is written and read by one table (a NUL and only a NUL is followed by the escape, 00 00 ends the element, the reader undoes exactly that).  A descending element is inverted whatever its length (the empty string included).  Order preservation in general, prefix contiguity and value round-trip are NOT "
+            "value and decode is its inverse (tabulated, not sampled); the compact format's width table is exact.  tuple_key2's byte-string framing is written and read by one table (a NUL and only a NUL is followed by the escape, 00 00 ends the element, the reader undoes exactly that).  A descending element is inverted whatever its length (the empty string included).  The compact format's width decoders admit nine-tag families only.  Order preservation in general, prefix contiguity and value round-trip are NOT "
             "decided.", "§4 C16, §10"),
     "C10": ("ORDER/MUSTPASS/SIBLINGS over builder put/del/seal, ORIGIN of index keys and final-block fields, maximum encoded sizes computed from field tables of the expanded derives vs. evaluated size constants; path-wise comparison-guard proof for divide_keys",
             "Decides builder gates and format tables: length/size/sort-order gates precede every mutation and agree between put "
@@ -147,7 +147,7 @@ CLAIMS = {
             "agree; plus two small structural clauses: all bit-vector implementations reject the same indices in access (>= len) "
             "and rank (> len), and a backward-search step returns an empty range whenever one of its input ranges is empty.  "
             "Index writers drive no loop by a zip() whose sides can differ in length.  Everything numerical in C19 (search positions, counts, rank/select/access, record mapping, extraction) is "
-            "In suffix-array construction an LMS substring is named apart from its predecessor only by the first-element test or a comparison between the two.  search pushes one located offset per index of the range count() answers with (accepted form).  NOT decided by static analysis and is not claimed.", "§4 C19"),
+            "In suffix-array construction an LMS substring is named apart from its predecessor only by the first-element test or a comparison between the two.  search pushes one located offset per index of the range count() answers with (accepted form).  An absent character gets no symbol: a searched position is answered only behind an equality test.  NOT decided by static analysis and is not claimed.", "§4 C19"),
 }
 
 NA_DEFAULT = "check not built yet (DESIGN.md §8 build order); will be claimed once its rule set is armed"
